@@ -6,6 +6,7 @@ From Ucfg Require Export CorrC05.
 Definition same_outcome (a b : obs) : bool :=
   match a, b with
   | OE r _, OE s _ => ereason_eqb r s
+  | OV x, OV y => data_equiv (strip_root x) (strip_root y)    (* the same data; nil = empty *)
   | _, _ => obs_eqb a b
   end.
 
